@@ -100,6 +100,29 @@ def programs():
 
     progs["long_scalar_names"] = long_tops
 
+    # set-valued parameters (sets of strings iterate in an order that depends on the hash seed)
+    from typing import FrozenSet
+
+    @h.paramclass
+    class SetP:
+        tags = h.Param(dtype=FrozenSet[str], desc="tags", default=frozenset())
+        nums = h.Param(dtype=FrozenSet[int], desc="nums", default=frozenset())
+
+    @h.generator
+    def GSet(params: SetP) -> h.Module:
+        mod = h.Module()
+        mod.p = h.Port(width=1 + len(params.tags))
+        return mod
+
+    def set_tops():
+        tops = [GSet(tags=frozenset(["alpha", "beta", "gamma", "delta", "epsilon"])), GSet(tags=frozenset(["x", "y"]), nums=frozenset([3, 1, 2])), GSet()]
+        top = h.Module(name="SetTop")
+        for k, t in enumerate(tops):
+            top.add(t(p=top.add(h.Signal(width=t.p.width), name=f"s{k}")), name=f"i{k}")
+        return top
+
+    progs["set_valued_params"] = set_tops
+
     # generators with caching disabled: a library cell that earlier, unrelated designs of the same process have used too
     @h.paramclass
     class BufP:
